@@ -13,7 +13,7 @@ from ..e2e import base_scenario, directed
 from ..forcedrv import margin_scenario
 
 ENV = {"NUMBA_BOUNDSCHECK": "1"}
-FAMILY_F = r"^(obs\.|run\.crashed|setup\.valid)"
+FAMILY_F = r"^(obs\.|run\.crashed|setup\.valid|trace\.incomplete)"
 FAMILY_E = r"^run\.crashed|^move\.(stages|shape)"
 DRIVERS = {"force-margin": ("harness.forcedrv", "force_trace", "ForceTrace", FAMILY_F),
            "e2e-boundary": ("harness.e2e", "run_e2e", "LadimTrace", FAMILY_E)}
